@@ -1328,7 +1328,11 @@ void Handler::handleStartFlags( int flag_set, IUsageText* txt1,
 void Handler::usage( IUsageText* txt1, IUsageText* txt2)
 {
 
-   if (Groups::instance().evaluatedByArgGroups() && !mIsSubGroupHandler)
+   // only a handler that was created by the Groups object leaves the usage to
+   // it: a stand-alone handler has nothing to do with the singleton (which may
+   // just be used by another thread, or would be created only by this call)
+   if (mUsedByGroup && !mIsSubGroupHandler
+       && Groups::instance().evaluatedByArgGroups())
    {
       Groups::instance().displayUsage( txt1, txt2);
       mUsagePrinted = true;
